@@ -401,6 +401,7 @@ type wsPeer struct {
 	stallCh chan struct{} // closed at shutdown
 }
 type wsPeerConn struct {
+	wmu   sync.Mutex // gorilla: one writer at a time
 	c     *websocket.Conn
 	query string
 	msgs  chan wsMsg
